@@ -28,7 +28,7 @@ def km_machine(case, cap, thr=None):
     from bob.learn.em import KMeansMachine
 
     ini = case["init"]
-    method = np.array(ini["init"], dtype=float, copy=True) if ini["method"] == "array" else ini["method"]
+    method = np.array(ini["init"], copy=True) if ini["method"] == "array" else ini["method"]
     return KMeansMachine(case["k"], init_method=method, convergence_threshold=thr, max_iter=cap,
                          random_state=int(ini["seed"]))
 
